@@ -81,7 +81,8 @@ structure CState where
   fns : List ((String × String) × SFn) := []
   currFn : String := ""
   currModule : String := ""
-  loops : List (String × String) := []          -- (break label, continue label), innermost first
+  loops : List (String × String × Nat) := []    -- (break label, continue label, try depth at entry), innermost first
+  tryDepth : Nat := 0                           -- enclosing `try` bodies of the current function
   varMangle : List (String × Nat) := []
   labelMangle : List (String × Nat) := []
   scopes : List (List (String × String)) := [[]] -- innermost first; source ident ↦ mangled
@@ -152,6 +153,11 @@ def getMangledFn (ident : String) : C (Option String) := do
   match s.fns.lookup (s.currModule, ident) with
   | some f => pure (some f.name)
   | none => pure ((s.fns.find? fun (k, _) => k.2 == ident).map (·.2.name))
+
+/-- `popTryLabels`: uninstall the handlers of `n` enclosing `try` blocks. -/
+def popTries (sp : Span) : Nat → C Unit
+  | 0 => pure ()
+  | n + 1 => do emit .popTry sp; popTries sp n
 
 def bumpVars : C Unit := updCurr fun f => { f with cntVars := f.cntVars + 1 }
 
@@ -384,7 +390,9 @@ def compileExpr : Nat → Expr → C Unit
     let exc ← mangleLabel "exception_label"
     let after ← mangleLabel "after_catch_label"
     emit (.setTry curr exc) sp
+    modify fun s => { s with tryDepth := s.tryDepth + 1 }
     compileBlock fuel t true
+    modify fun s => { s with tryDepth := s.tryDepth - 1 }
     emit .popTry sp
     emit (.jump after) sp
     emit (.label exc) sp
@@ -481,20 +489,23 @@ def compileStmt : Nat → Stmt → C Unit
     match e with
     | some e => compileExpr fuel e
     | none => pure ()
+    popTries sp (← get).tryDepth
     emit (.jump (← cleanupLabel)) sp
   | .brk sp => do
-    match (← get).loops with
-    | (b, _) :: _ => emit (.jump b) sp
+    let s ← get
+    match s.loops with
+    | (b, _, td) :: _ => do popTries sp (s.tryDepth - td); emit (.jump b) sp
     | [] => unsup "break outside a loop"
   | .cont sp => do
-    match (← get).loops with
-    | (_, c) :: _ => emit (.jump c) sp
+    let s ← get
+    match s.loops with
+    | (_, c, td) :: _ => do popTries sp (s.tryDepth - td); emit (.jump c) sp
     | [] => unsup "continue outside a loop"
   | .loopS sp body => do
     let head ← mangleLabel "loop_head"
     let after ← mangleLabel "loop_end"
     emit (.label head) sp
-    modify fun s => { s with loops := (after, head) :: s.loops }
+    modify fun s => { s with loops := (after, head, s.tryDepth) :: s.loops }
     compileBlock fuel body true
     emit (.jump head) sp
     emit (.label after) sp
@@ -505,7 +516,7 @@ def compileStmt : Nat → Stmt → C Unit
     emit (.label head) sp
     compileExpr fuel c
     emit (.jumpIfFalse after) sp
-    modify fun s => { s with loops := (after, head) :: s.loops }
+    modify fun s => { s with loops := (after, head, s.tryDepth) :: s.loops }
     compileBlock fuel body true
     emit (.jump head) sp
     emit (.label after) sp
@@ -526,7 +537,7 @@ def compileStmt : Nat → Stmt → C Unit
     emit .iterAdvance sp
     emit (.setVar hv) sp
     emit (.jumpIfFalse after) sp
-    modify fun s => { s with loops := (after, update) :: s.loops }
+    modify fun s => { s with loops := (after, update, s.tryDepth) :: s.loops }
     compileBlock fuel body false
     emit (.label update) sp
     emit (.jump head) sp
@@ -543,6 +554,8 @@ def compileFn : Nat → FnDef → C Unit
   addFn fd.name m
   modify fun s => { s with currFn := fd.name }
   pushScopeC
+  let outerTryDepth := (← get).tryDepth
+  modify fun s => { s with tryDepth := 0 }
   if fd.hasAnnotation then unsup "function annotation"
   let mpIdx ← currLen
   emit (.addMp 0) fd.sp
@@ -562,6 +575,7 @@ def compileFn : Nat → FnDef → C Unit
   emit (.label cleanup) fd.sp
   emit (.addMp (-cnt)) fd.sp
   emit .ret fd.sp
+  modify fun s => { s with tryDepth := outerTryDepth }
   popScopeC
 end
 
